@@ -41,7 +41,7 @@ let run_report ic =
         | [fl; req; ed] ->
           if ed <> "-" then st := apply_op_i !st (Edit (O, Some (nat_of_int (int_of_string (String.sub ed 1 (String.length ed - 1))))));
           let has c = String.contains fl c in
-          let f = { f_quiet = has 'q'; f_json = has 'j'; f_force = has 'f'; f_show = has 's'; f_vars = has 'v'; f_clean = has 'c' } in
+          let f = { f_quiet = has 'q'; f_json = has 'j'; f_force = has 'f'; f_show = has 's'; f_vars = has 'v'; f_clean = has 'c'; f_debug = has 'd' } in
           let req = if req = "-" then [] else ints req in
           let (s', ob) = invoke (fun _ l -> l) defs vars !st f req in
           st := s';
@@ -51,11 +51,13 @@ let run_report ic =
             | Some _ -> "other" in
           let exit = int_of_nat ob.ob_exit in
           let has_t k = List.exists (fun d -> d.td_name = nat_of_int k) defs in
-          let listing = not f.f_vars && not f.f_clean && (f.f_show || (req = [] && not (has_t 3))) in
+          let usage = f.f_quiet && f.f_debug in
+          let listing = not usage && not f.f_vars && not f.f_clean && (f.f_show || (req = [] && not (has_t 3))) in
           let many = (not f.f_vars) && (not f.f_clean) && (not f.f_show) && List.length req > 1 in
           let by_name rs = if many then List.sort (fun a b -> compare (nm a.tr_name) (nm b.tr_name)) rs else rs in
           let outs =
-            if f.f_vars then
+            if usage then (match ob.ob_stdout with SDNothing -> "empty" | _ -> "nonempty")
+            else if f.f_vars then
               (match ob.ob_stdout with
                | SDVars l -> "vars=" ^ String.concat "," (List.map (fun (n, v) -> vnames.(int_of_nat n) ^ "=" ^ hexs v) l)
                | SDNothing -> "empty" | _ -> "vars=?")
